@@ -182,6 +182,13 @@ def parse_unit(path):
         if word == "id":
             f.id_suffix = rest.strip()
             continue
+        if word == "tlprops":
+            # tlprops <trait label> <property ids...>: property list of a trait-level label for this fn
+            parts_ = rest.split()
+            if not hasattr(f, "tlprops"):
+                f.tlprops = {}
+            f.tlprops[parts_[0]] = parts_[1:]
+            continue
         if word == "lift":
             # lift after "<anchor>" [nth K] as "<signature>" [tail "<text>"]
             m = re.match(r'^after\s+"((?:[^"\\]|\\.)*)"\s*(?:nth\s+(\d+)\s*)?as\s+"((?:[^"\\]|\\.)*)"\s*(?:tail\s+"((?:[^"\\]|\\.)*)")?\s*$', rest, re.S)
@@ -367,6 +374,7 @@ def _weave_fn(text, fs, fid, dserves, log, where, meta, in_trait_impl):
         raise ExtractError("%s: fn without body" % where)
     serves = fs.serves if fs.serves is not None else dserves
     entry = dict(id=fid, serves=serves, labels={}, loops=0, panics=0,
+                 tlprops=getattr(fs, "tlprops", {}),
                  requires=len(fs.requires), requires_text=[" ".join(e.split())[:300] for _l, e in fs.requires], where=where)
     meta["functions"].append(entry)
 
@@ -585,11 +593,9 @@ def expand_extract(d, log, meta, unit_path):
             ftoks = X.rewrite(toks[s2:e2 + 1], log, where)
             ftext = _rename(untok(ftoks), d.renames, log, where)
             if d.rewrites:
-                try:
-                    ftext = X.apply_pattern_rewrites(
-                        ftext, [(a, b, c, None) for a, b, c, _ in d.rewrites], log, where)
-                except ExtractError:
-                    pass
+                # block-level rules apply to every fn of the block where they match (each rule on its own)
+                ftext = X.apply_pattern_rewrites(
+                    ftext, [(a, b, c, -1) for a, b, c, _ in d.rewrites], log, where)
             fs = next((f for f in d.fns if f.name == name), None)
             if fs is not None:
                 hn = norm(d.item)
